@@ -43,6 +43,8 @@ def c17_compare(chk, case, o):
         outs.append(("out_iter", o["out_iter"]))
         if "out_default" in o:
             outs.append(("out_default", o["out_default"]))
+        if "out_list" in o:
+            outs.append(("out_list (join over std::list iterators)", o["out_list"]))
     for name, v in outs:
         if v != case["out"]:
             chk.diverge(where, "wrong-result", wit,
